@@ -67,6 +67,8 @@ NOT_DECIDED = [
     'decimal integer numerals outside the int64 range: decided is that they become floats (kind clause; the wrap-around to a wrong int64 was a genuine '
     'defect, fix C05-4) -- which float is the floating-point VALUE again; hexadecimal numerals (extension) of 16 or more digits still wrap; exponents of ten or '
     'more digits overflow the `int e` accumulator (UB)',
+    'the decimal exponent is decided as an INTEGER (the counter the scaling loops run on carries every exponent up to 400 exactly and may only saturate above '
+    'that; seeded change C04-R5A clamped it at 307); the scaling arithmetic itself is floating point',
     'the floating-point value of the fraction digits however they are accumulated (a seeded change that collects them in a wrapping uint64_t is NOT detected: '
     'C05-R3B, DESIGN.md 8.6)',
     'OBSERVATIONS outside the statement, not counted as violations: the parser accepts in BOTH modes `\\xHH` escapes (not listed in JSON.hh), raw control '
@@ -359,7 +361,8 @@ def json_unit(ctx, src, loops):
 
     def new_unit(name, rdc='RD(call)', rdg='RD(call)'):
         u = Unit(ctx, 'json_' + name)
-        u.raw('#undef RDC\n#undef RDG\n#define RDC(call) %s\n#define RDG(call) %s' % (rdc, rdg))
+        # (the C standard headers a translation unit may name constants from: float.h / limits.h are header-only constants)
+        u.raw('#include <float.h>\n#include <limits.h>\n#undef RDC\n#undef RDG\n#define RDC(call) %s\n#define RDG(call) %s' % (rdc, rdg))
         units.append(u)
         return u
     # the four trivial accessors (no bounds check, cannot throw) are used with their real bodies (inlined); the bounds-checked
@@ -457,7 +460,8 @@ def json_unit(ctx, src, loops):
                    Rule(r'\bret = float_data;', 'jv_set_float(ret, float_data);', count=1, regex=True),
                    # the exponent accumulator `int e` wraps (UB) for exponents of ten or more digits: the check is switched off for
                    # this one statement and the wrap is tracked by the ghost flag g_eovf instead (ASSUMPTIONS)
-                   Rule(r'(\be = e \* 10 \+ \(r\.get_s8\(\) - \'0\'\);)',
+                   Rule(r'(\bif \(e_negative\) \{)', r'C05_NUM_EXP_DONE; \1', count=1, regex=True),
+                   Rule(r'(\be = [^;]*\be \* 10 \+ [^;]*;)',
                         r'C05_NUM_EXP_DIGIT;' + '\n#pragma CPROVER check push\n#pragma CPROVER check disable "signed-overflow"\n' + r'\1' + '\n#pragma CPROVER check pop\n',
                         count=1, regex=True),
                    Rule(r'(\bif \(is_int\) \{)', r'C05_NUM_EXIT; \1', count=1, regex=True)] + CTYPE +
@@ -508,7 +512,7 @@ def json_unit(ctx, src, loops):
 
 
 RDG_ = 'g_len, g_off, g_mk'          # ghosts written by every reader call (macro RD)
-NUMG = 'g_j.nq, g_j.nc, g_j.nc2, g_j.nacc, g_j.novf, g_j.nneg, g_j.nalpha'       # ghosts written by C05_NUM_STEP
+NUMG = 'g_j.nq, g_j.nc, g_j.nc2, g_j.nacc, g_j.novf, g_j.nneg, g_j.nalpha, g_j.nexp, g_j.neovf'       # ghosts written by C05_NUM_STEP
 
 
 def num_common(locals_):
@@ -537,6 +541,7 @@ __CPROVER_decreases(r->length - r->offset)
 """ % RDG_,
     # number branch: 1 hex digits, 2 integer digits, 3 fraction digits, 4 exponent digits, 5/6 scaling by the exponent
     'num1': num_common('@LOCALS@') + """
+__CPROVER_loop_invariant(g_j.nexp == 0 && !g_j.neovf)
 __CPROVER_loop_invariant(g_j.nhex && !disable_extensions && r->offset > g_j.nstart && (g_j.nq == NQ_HEXP || g_j.nq == NQ_HEX || g_j.nq == NQ_DEAD))
 __CPROVER_loop_invariant((g_j.nq != NQ_DEAD && !g_j.novf) ==> ((uint64_t)int_data == g_j.nacc && g_j.nacc <= 0x7FFFFFFFFFFFFFFFull))
 __CPROVER_loop_invariant(g_j.nq == NQ_HEXP ==> C05_ISHEX(C05_PEEK(r)))
@@ -545,6 +550,7 @@ C05_NUM_INV_HEX
 __CPROVER_decreases(r->length - r->offset)
 """,
     'num2': num_common('@LOCALS@') + """
+__CPROVER_loop_invariant(g_j.nexp == 0 && !g_j.neovf)
 __CPROVER_loop_invariant(!g_j.nhex && (g_j.nq == NQ_START || g_j.nq == NQ_MINUS || g_j.nq == NQ_ZERO || g_j.nq == NQ_INT || g_j.nq == NQ_DEAD))
 __CPROVER_loop_invariant((g_j.nq != NQ_DEAD && !g_j.novf) ==> ((uint64_t)int_data == g_j.nacc && g_j.nacc <= C05_INT_LIMIT(g_j.nneg)))
 C05_NUM_INV_OVF
@@ -555,12 +561,14 @@ C05_NUM_INV_DEC
 __CPROVER_decreases(r->length - r->offset)
 """,
     'num3': num_common('@LOCALS@') + """
+__CPROVER_loop_invariant(g_j.nexp == 0 && !g_j.neovf)
 __CPROVER_loop_invariant(!g_j.nhex && r->offset > g_j.nstart && (g_j.nq == NQ_DOT || g_j.nq == NQ_FRAC || g_j.nq == NQ_DEAD))
 __CPROVER_decreases(r->length - r->offset)
 """,
     'num4': num_common('@LOCALS@') + """
 __CPROVER_loop_invariant(!g_j.nhex && r->offset > g_j.nstart && (g_j.nq == NQ_E || g_j.nq == NQ_ESIGN || g_j.nq == NQ_EXP || g_j.nq == NQ_DEAD))
 __CPROVER_loop_invariant(g_j.nq == NQ_E ==> (C05_PEEK(r) != '+' && C05_PEEK(r) != '-'))
+__CPROVER_loop_invariant((g_j.nq != NQ_DEAD && !g_j.neovf) ==> (e >= 0 && C05_EXP_CARRIED(e, g_j.nexp)))
 __CPROVER_decreases(r->length - r->offset)
 """,
     'num5': '__CPROVER_assigns(e, int_data, float_data)\n__CPROVER_loop_invariant(1 == 1)\n__CPROVER_decreases(e)',
